@@ -101,7 +101,7 @@ class BaseSliver(ABC):
         assert (cap is None or isinstance(cap, Capacities))
         assert(cap is None or isinstance(cap, Capacities))
         # results of capacity arithmetic can be negative, what is stored cannot (it would not decode)
-        assert(cap is None or len(cap.negative_fields()) == 0)
+        assert(cap is None or all(v is None or v >= 0 for v in cap.__dict__.values()))
         self.capacities = cap
 
     def get_capacities(self) -> Capacities:
@@ -146,7 +146,7 @@ class BaseSliver(ABC):
 
     def set_capacity_allocations(self, cap: Capacities) -> None:
         assert(cap is None or isinstance(cap, Capacities))
-        assert(cap is None or len(cap.negative_fields()) == 0)
+        assert(cap is None or all(v is None or v >= 0 for v in cap.__dict__.values()))
         self.capacity_allocations = cap
 
     def get_capacity_allocations(self) -> Capacities:
